@@ -47,7 +47,7 @@ _field_re = re.compile(r'''
                 (?P<conversion> ! \w+ ) ?
                 (?P<format> :
                     (?:
-                        [^{}]* |
+                        [^{}] |
                         ''' + _simple_field_pattern + '''
                     )*
                 ) ?
